@@ -222,6 +222,27 @@ Definition launch (v : variant) (d : dir) (o : outcome) (dth : option death) : d
 Definition history (v : variant) (d : dir) (l : list (outcome * option death)) : dir :=
   fold_left (fun d x => launch v d (fst x) (snd x)) l d.
 
+(* a second death of the same process: SIGKILL when j effects of what the first signal set off (the
+   handler, the except clause it triggers, the exit phase) are done *)
+Definition effects2 (v : variant) (o : outcome) (dth : death) (j : nat) (d : dir) : list eff :=
+  let '(g, k, c) := dth in
+  let pre := firstn k (trace v o d) in
+  pre ++ firstn j (on_signal v g c (run_effs pre (boot d))).
+
+Definition launch2 (v : variant) (d : dir) (o : outcome) (dth : death) (j : nat) : dir :=
+  die (run_effs (effects2 v o dth j d) (boot d)).
+
+(* how a launch ends: by itself, by one signal, by a signal and a SIGKILL inside its handling *)
+Inductive fate := Alone | Dies (dth : death) | DiesTwice (dth : death) (j : nat).
+Definition launchf (v : variant) (d : dir) (o : outcome) (f : fate) : dir :=
+  match f with
+  | Alone => launch v d o None
+  | Dies dth => launch v d o (Some dth)
+  | DiesTwice dth j => launch2 v d o dth j
+  end.
+Definition historyf (v : variant) (d : dir) (l : list (outcome * fate)) : dir :=
+  fold_left (fun d x => launchf v d (fst x) (snd x)) l d.
+
 (* ---------------------------------------------------------------- what the property talks about *)
 Definition Inv (d : dir) : Prop :=
   (d_done d = true -> 1 <= d_completed d) /\ d_lock d = false /\ d_completed d <= d_runs d.
